@@ -377,7 +377,7 @@ def hdd_abs(rng, ctx) -> Opened:
     from dissect.hypervisor.disk.hdd import HDD
 
     base = Path(ctx.tmpdir())
-    variant = rng.choice(["same-hdd", "same-hdd-renamed", "sibling-hdd", "pvm"])
+    variant = rng.choice(["same-hdd", "same-hdd-renamed", "sibling-hdd", "pvm", "abs-exists"])
     g = whds.DEFAULT_TOP
     sf, layer, meta = whds.build_hds(rng, version=rng.choice([1, 2]), m_sectors=8, nclusters=rng.randrange(2, 20), tag=rng.getrandbits(48), placement="shuffle")
     nsec = meta["size"] // SECTOR
@@ -393,6 +393,14 @@ def hdd_abs(rng, ctx) -> Opened:
         ref = "/other/place/x.pvm/disk.hdd/img.hds"
         (base / "vm.pvm" / "disk.hdd").mkdir(parents=True)
         decoy.write_to(base / "vm.pvm" / "disk.hdd" / "img.hds")
+    elif variant == "abs-exists":
+        # the absolute path still exists (an image kept outside the bundle): that file is the image, whatever else of the
+        # same name lies in the bundle
+        hd = base / "vm.pvm" / "disk.hdd"
+        target = base / "shared images" / "img.hds"
+        ref = str(target)
+        hd.mkdir(parents=True)
+        decoy.write_to(hd / "img.hds")
     elif variant == "sibling-hdd":
         hd = base / "vm.pvm" / "disk.hdd"
         target = base / "vm.pvm" / "orig.hdd" / "img.hds"
@@ -401,7 +409,7 @@ def hdd_abs(rng, ctx) -> Opened:
         hd = base / "clones" / "vm.pvm" / "disk.hdd"
         target = base / "clones" / "orig.pvm" / "orig.hdd" / "img.hds"
         ref = "/gone/orig.pvm/orig.hdd/img.hds"
-    hd.mkdir(parents=True)
+    hd.mkdir(parents=True, exist_ok=True)
     target.parent.mkdir(parents=True, exist_ok=True)
     sf.write_to(target)
     whds.write_hdd_dir(str(hd), [{"start": 0, "end": nsec, "images": [{"guid": g, "type": "Compressed", "file": ref}]}], [(g, whds.NULL_GUID)])
